@@ -30,7 +30,7 @@ const logRule = "one case = one plan of the behavioural worlds (hist incl. metho
 func init() {
 	props["C19"] = propCfg{World: "log", Level: "exploration", Quick: 1500, Thorough: 50000, RaceQ: 480, RaceT: 8000, Chunk: 50, EnvVar: map[string]int{"env:debug": 300, "env:nodir": 150, "env:full": 150}, Rule: logRule, Assume: commonAssume}
 	props["C03"] = propCfg{World: "origin", Level: "exploration", Quick: 1600, Thorough: 100000, Chunk: 40, Rule: originRule, Assume: commonAssume}
-	props["C10"] = propCfg{World: "sym", Level: "fault_enumeration", Quick: 1500, Thorough: 60000, RaceQ: 200, RaceT: 6000, Chunk: 25, Extra: map[string]int{"pie": 150, "strip": 150, "extlink": 200}, Rule: symRule, Assume: commonAssume}
+	props["C10"] = propCfg{World: "sym", Level: "fault_enumeration", Quick: 1500, Thorough: 60000, RaceQ: 200, RaceT: 6000, Chunk: 25, Extra: map[string]int{"pie": 150, "strip": 150, "extlink": 200, "extstrip": 150}, Rule: symRule, Assume: commonAssume}
 	props["C14"] = propCfg{World: "mem", Level: "exploration", Quick: 2500, Thorough: 200000, Chunk: 50, Rule: memRule, Assume: commonAssume}
 	props["C20"] = propCfg{World: "space", Level: "fault_enumeration", Quick: 1500, Thorough: 100000, RaceQ: 300, RaceT: 10000, PerProc: true, Rule: spaceRule, Assume: commonAssume}
 	props["C11"] = propCfg{World: "conc", Level: "exploration", Quick: 3000, Thorough: 80000, RaceQ: 500, RaceT: 10000, Chunk: 50, Rule: concRule, Assume: commonAssume}
